@@ -667,6 +667,10 @@ class Interp(object):
         elif isinstance(target, ast.Subscript):
             base = self.ev(target.value, fr)
             idx = self.ev_index(target.slice, fr)
+            # a store under a condition carries the condition's provenance (implicit flow), like a conditional rebinding does
+            ptags = fr.state.pc.get("__tags__") if fr.state.pc else None
+            if ptags and not (ptags <= v.tags):
+                v = v.replace(tags=v.tags | ptags)
             self.store_subscript(fr, target, base, idx, v, st, how="subscript-store")
         else:
             self.unmodelled(fr, st, "assignment target " + type(target).__name__)
